@@ -65,6 +65,55 @@ fn is_skipped_query_string(name: &str) -> bool {
     name == "X-Amz-Signature"
 }
 
+/// `<CanonicalHeaders>`: one line per header name, values trimmed, sequential spaces
+/// converted to a single space, the values of a repeated header joined by commas.
+///
+/// `signed_headers` is sorted by name and keeps the arrival order of repeated names.
+fn push_canonical_headers(ans: &mut String, signed_headers: &OrderedHeaders<'_>) {
+    let mut last_name: Option<&str> = None;
+    for &(name, value) in signed_headers.as_ref() {
+        if is_skipped_header(name) {
+            continue;
+        }
+        if last_name == Some(name) {
+            ans.push(',');
+        } else {
+            if last_name.is_some() {
+                ans.push('\n');
+            }
+            ans.push_str(name);
+            ans.push(':');
+            last_name = Some(name);
+        }
+        let mut prev_is_space = false;
+        for c in value.trim().chars() {
+            if c == ' ' && prev_is_space {
+                continue;
+            }
+            prev_is_space = c == ' ';
+            ans.push(c);
+        }
+    }
+    if last_name.is_some() {
+        ans.push('\n');
+    }
+}
+
+/// `<SignedHeaders>`: the names of the canonical headers, each one once
+fn push_signed_header_names(ans: &mut String, signed_headers: &OrderedHeaders<'_>) {
+    let mut last_name: Option<&str> = None;
+    for &(name, _) in signed_headers.as_ref() {
+        if is_skipped_header(name) || last_name == Some(name) {
+            continue;
+        }
+        if last_name.is_some() {
+            ans.push(';');
+        }
+        ans.push_str(name);
+        last_name = Some(name);
+    }
+}
+
 /// sha256 hash of an empty string
 const EMPTY_STRING_SHA256_HASH: &str = "e3b0c44298fc1c149afbf4c8996fb92427ae41e4649b934ca495991b7852b855";
 
@@ -140,32 +189,13 @@ pub fn create_canonical_request(
 
         // FIXME: check HOST, Content-Type, x-amz-security-token, x-amz-content-sha256
 
-        for &(name, value) in signed_headers.as_ref() {
-            if is_skipped_header(name) {
-                continue;
-            }
-            ans.push_str(name);
-            ans.push(':');
-            ans.push_str(value.trim());
-            ans.push('\n');
-        }
+        push_canonical_headers(&mut ans, signed_headers);
         ans.push('\n');
     }
 
     {
         // <SignedHeaders>\n
-        let mut first_flag = true;
-        for &(name, _) in signed_headers.as_ref() {
-            if is_skipped_header(name) {
-                continue;
-            }
-            if first_flag {
-                first_flag = false;
-            } else {
-                ans.push(';');
-            }
-            ans.push_str(name);
-        }
+        push_signed_header_names(&mut ans, signed_headers);
 
         ans.push('\n');
     }
@@ -352,31 +382,12 @@ pub fn create_presigned_canonical_request(
     {
         // <CanonicalHeaders>\n
 
-        for &(name, value) in signed_headers.as_ref() {
-            if is_skipped_header(name) {
-                continue;
-            }
-            ans.push_str(name);
-            ans.push(':');
-            ans.push_str(value.trim());
-            ans.push('\n');
-        }
+        push_canonical_headers(&mut ans, signed_headers);
         ans.push('\n');
     }
     {
         // <SignedHeaders>\n
-        let mut first_flag = true;
-        for &(name, _) in signed_headers.as_ref() {
-            if is_skipped_header(name) {
-                continue;
-            }
-            if first_flag {
-                first_flag = false;
-            } else {
-                ans.push(';');
-            }
-            ans.push_str(name);
-        }
+        push_signed_header_names(&mut ans, signed_headers);
 
         ans.push('\n');
     }
